@@ -6,13 +6,36 @@
     lists, garbage, allocation counter, output already written).  Then running on from that state and running P2 ALONE
     from the initial state end alike, under any two collection schedules: the output of P1;P2 is the output of P2 alone
     after what had been written, the final world is the same, and an error has the same kind and payload and is located at
-    pi of the location in P2 alone.  The step laws below show that the control stacks ARE neutral at top level after
-    conditionals, returns, breaks and discarded containers; that P1's run actually arrives at such a state is their
-    composition over P1's execution, which is covered by the compose stream (not a theorem: it would need the structured
-    semantics R of DESIGN.md). *)
+    pi of the location in P2 alone.  C19_control_state_is_neutral_between_fragments (Proofs/TopLevel.v, the frame invariant
+    of the top level) shows that whenever a run from the initial state stands at a position outside every block and loop,
+    the control stacks ARE neutral and the free lists duplicate free -- whatever conditionals, returns, breaks, finished
+    loops and collections came before; C19_fragments_compose_from_the_start (Proofs/Fragments.v) chains the two: observe
+    the run of P1;P2 at the first statement of P2, and from there it is indistinguishable from P2 alone.  Left to the
+    compose stream: that P1 binds none of P2's names when their texts share none (a scope-key invariant not proved), and
+    that the run of P1;P2 reaches the first statement of P2 exactly when P1 alone ends normally. *)
 From Pakhi Require Import Base Float64 Syntax Tables Lexer Interp.
-From Pakhi.Proofs Require Import Scope Control GCMark GCSweep WF WFOps Sim2Defs Sim2 Compose.
+From Pakhi.Proofs Require Import Scope Control GCMark GCSweep WF WFOps Frames FrameInv Sim2Defs Sim2 Compose TopLevel Fragments.
 Local Open Scope nat_scope.
+
+Theorem C19_control_state_is_neutral_between_fragments : forall code, code_ok code -> forall platform w fuel sched, code <> [] ->
+  let m := snd (run code fuel sched 0 (init_machine platform w)) in
+  (sd code (m_pc m) = 0%Z /\ forall l, loop_ok code (top_frame code) l -> ~ inside (m_pc m) l) ->
+  mwf code m /\ length (m_scopes m) = 1 /\ m_loops m = [] /\ m_loop_base m = 0 /\ m_ret m = [] /\
+  (NoDup (h_free_lists (m_heap m)) /\ NoDup (h_free_recs (m_heap m))).
+Proof. exact top_neutral. Qed.
+Print Assumptions C19_control_state_is_neutral_between_fragments.
+
+Theorem C19_fragments_compose_from_the_start : forall (N : text -> Prop) c1 c2 pi platform w fuel1 sched1 fuel schedA schedB bA,
+  let codeA := c1 ++ map (smap idn pi) c2 in
+  let mA := snd (run codeA fuel1 sched1 0 (init_machine platform w)) in
+  code_ok codeA -> code_ok c2 -> c2 <> [] ->
+  m_pc mA = length c1 -> closed_at codeA (length c1) ->
+  (forall pc s, stmt_at c2 pc = Some s -> Forall N (snames s)) ->
+  (forall g, m_scopes mA = [g] -> alist_get platform_const g = Some (VStr platform) /\
+             forall x, N x -> x <> platform_const -> alist_get x g = None) ->
+  same_end2 pi (m_out mA) (fst (run codeA fuel schedA bA mA)) (fst (run c2 fuel schedB 0 (init_machine platform (m_world mA)))).
+Proof. exact compose_from_start. Qed.
+Print Assumptions C19_fragments_compose_from_the_start.
 
 Theorem C19_fragments_compose : forall (N : text -> Prop) c1 c2 pi mA platform fuel schedA schedB bA,
   let codeA := c1 ++ map (smap idn pi) c2 in
